@@ -56,6 +56,14 @@ PLAN = {
  "C13g-view-output-opened-first": ["C13"], "C14g-r1-denominator-by-subtraction": ["C14"], "C15g-reject-unaligned-header": ["C15"],
  "C16g-skip-padding-after-header": ["C16", "C15"], "C17g-shape-slice-last-numeric": ["C17"], "C18g-vcf-eof-is-done": ["C18", "C10"],
  "C19g-to-array-keeps-view-strides": ["C19"],
+ # round 8
+ "C01h-samples-file-must-be-regular": ["C01", "C09"], "C02h-joint-probability-epsilon": ["C02"], "C03h-view-individuals-no-delimiter": ["C03", "C13"],
+ "C04h-unsorted-axes-reversed": ["C04"], "C05h-fold-output-file-default-precision": ["C05"], "C06h-text-reader-pops-last-char": ["C06"],
+ "C07h-npy-extension-trusted": ["C07", "C13"], "C08h-zero-projection-skips-ploidy": ["C08", "C02"], "C09h-empty-label-is-unnamed": ["C09"],
+ "C10h-unparsable-gt-is-missing": ["C10", "C08"], "C11h-skipped-list-shrink-to": ["C11"], "C12h-format-from-extension": ["C12", "C01"],
+ "C13h-view-individuals-even-shape": ["C13", "C03"], "C14h-pixy-take-after-skip": ["C14"], "C15h-trim-ascii-end-before-detect": ["C15", "C07"],
+ "C16h-array-new-prefix-product": ["C16"], "C17h-keep-list-longer-than-axes": ["C17"], "C18h-final-newline-write-not-all": ["C18"],
+ "C19h-view-iter-clone-resets-coords": ["C19"],
 }
 seeds = sys.argv[1:] or sorted(PLAN)
 for seed in seeds:
